@@ -800,7 +800,11 @@ fn explore(ctx: &Ctx) {
                     let mut p = proto.clone();
                     p.op = OpSpec::PiecewiseMerge { op, right_parts };
                     p.jt = jt;
-                    push_inputs(&mut cases, &p, d, 1, false);
+                    // every batch cut also in the quick tier: the classic stream scan keeps per-row state
+                    // (`found`, resume cursors) across the rows of ONE stream batch, which the finest cut
+                    // (one row per batch) never exercises
+                    let dp = Dims { max_rows: d.max_rows, batch_sizes: d.batch_sizes.clone(), all_splits: true, min_big: d.min_big };
+                    push_inputs(&mut cases, &p, &dp, 1, false);
                 }
             }
         }
